@@ -2,6 +2,7 @@
 //! counterexample to an obligation that Verus failed to discharge, and as bounded add-on
 //! evidence in the thorough tier).  Each subcommand prints one JSON object on stdout:
 //!   {"found": null | {...failing input...}, "evaluations": N, "distinct_nontrivial": M}
+mod c07;
 mod c08;
 mod c10;
 mod c12;
@@ -13,6 +14,7 @@ fn main() {
     let sub = args.get(1).map(|s| s.as_str()).unwrap_or("");
     let rest: Vec<String> = args.iter().skip(2).cloned().collect();
     match sub {
+        "c07" => c07::run(&rest),
         "c08" => c08::run(&rest),
         "c10" => c10::run(&rest),
         "c12" => c12::run(&rest),
